@@ -161,7 +161,8 @@ func TestVerifC07Reader(t *testing.T) {
 		return b
 	}
 	const Lm = 3 // epoch length used by spec/GsfaSlotWindow.tla
-	real := func(v int) int { return (v/Lm)*432000 + (v%Lm)*1000 }
+	// the model's first / middle / last slot of an epoch are the real first slot, a middle slot and the real last slot
+	real := func(v int) int { return (v/Lm)*432000 + []int{0, 1000, 431999}[v%Lm] }
 	for _, raw := range vt.Cases(t) {
 		var c c07Case
 		if err := json.Unmarshal(raw, &c); err != nil {
